@@ -62,7 +62,7 @@ def location_rules(ctx, P):
         ctx.ob(P + ".into_vec.child-gets-ancestor-path", f.key, "closure: prepend_at(child, bundle locations) then recurse", okc, detail)
     f = ctx.fn(E + "flatten")
     if f:
-        rs = [e for _, e in ctx.ret_exprs(f)]
+        rs = ctx.ret_values(f)
         ctx.ob(P + ".flatten.def", f.key, "return", rs == ["darling_core::error::Error::multiple(darling_core::error::Error::into_vec(self))"], "returns %s" % rs)
     # ---- prepend_at / at
     f = ctx.fn(E + "prepend_at")
@@ -75,18 +75,18 @@ def location_rules(ctx, P):
         ctx.ob(P + ".prepend_at.stores-combined", f.key, "self.locations = locations", ok, "assignments %s" % [ctx.expr(f, a[2]["r"]) for a in asg])
         for blk, i, st in asg:
             ctx.requires(P + ".prepend_at.only-when-nonempty", f, blk, "self.locations = …", [r"is_empty\(a2\)=False"])
-        rs = [e for _, e in ctx.ret_exprs(f)]
+        rs = ctx.ret_values(f)
         ctx.ob(P + ".prepend_at.returns-self", f.key, "return", rs == ["self"], "returns %s" % rs)
     f = ctx.fn(E + "at")
     if f:
         ins = ctx.find_calls(f, r"Vec::<T, A>::insert$")
         ok = len(ins) == 1 and ctx.expr(f, ins[0][1]["args"][0]) == "self.locations" and ctx.expr(f, ins[0][1]["args"][1]) == "0_usize" and "to_string(a2)" in ctx.expr(f, ins[0][1]["args"][2])
         ctx.ob(P + ".at.inserts-at-front", f.key, "locations.insert(0, location.to_string())", ok, "insert(%s)" % [[ctx.expr(f, a) for a in t["args"]] for _, t in ins])
-        rs = [e for _, e in ctx.ret_exprs(f)]
+        rs = ctx.ret_values(f)
         ctx.ob(P + ".at.returns-self", f.key, "return", rs == ["self"], "returns %s" % rs)
     f = ctx.fn(E + "at_path")
     if f:
-        rs = [e for _, e in ctx.ret_exprs(f)]
+        rs = ctx.ret_values(f)
         ctx.ob(P + ".at_path.def", f.key, "return", rs == ["darling_core::error::Error::at(self, darling_core::util::path_to_string::path_to_string(a2))"], "returns %s" % rs)
 
 
@@ -105,7 +105,7 @@ def run(ctx):
         ctx.ob("C04.len.bundle-sums-children", f.key, "return sum(map(Error::len))", ok2, "the Multiple arm must sum Error::len over its own vector")
     f = ctx.fn(E + "len")
     if f:
-        rs = [e for _, e in ctx.ret_exprs(f)]
+        rs = ctx.ret_values(f)
         ctx.ob("C04.len.delegates", f.key, "return", rs == ["darling_core::error::kind::ErrorKind::len(self.kind)"], "returns %s" % rs)
     # ---- multiple
     f = ctx.fn(E + "multiple")
@@ -120,8 +120,8 @@ def run(ctx):
             ctx.requires("C04.multiple.zero-panics", f, blk, "panic", [r"len\(a1\)=0$"])
         for blk, i, st in agg:
             ctx.requires("C04.multiple.n-bundles", f, blk, "Multiple", [r"len\(a1\)=\('not-in', \(0, 1\)\)"])
-        rs = [e for _, e in ctx.ret_exprs(f)]
-        ok = any(re.search(r"expect\(alloc::vec::Vec::<T, A>::pop\(a1\)", e) for e in rs) and any("Error::new(" in e and "Multiple{a1}" in e for e in rs)
+        rs = ctx.ret_values(f)
+        ok = any(re.search(r"^\(alloc::vec::Vec::<T, A>::pop\(a1\) as Some\)\.0$", e) for e in rs) and any("Error::new(" in e and "Multiple{a1}" in e for e in rs)
         ctx.ob("C04.multiple.values", f.key, "returns", ok, "returns %s" % rs)
     location_rules(ctx, "C04")
     # ---- Display
@@ -146,10 +146,23 @@ def run(ctx):
         for blk, t in news:
             ctx.requires("C04.syn.single-direct", f, blk, "syn::Error::new", [r"Eq\(darling_core::error::Error::len\(a1\), 1_usize\)=True"])
         fl = ctx.find_calls(f, r"Error::flatten$")
-        comb = ctx.find_calls(f, r"^syn::error::Error::combine$")
-        ctx.ob("C04.syn.multi-shape", f.key, "flatten + combine", len(fl) == 1 and len(comb) == 1, "%d flatten, %d combine" % (len(fl), len(comb)))
-        for blk, t in fl + comb:
+        comb_deep = ctx.find_calls_deep(f, r"^syn::error::Error::combine$")
+        comb = [(blk, t) for blk, t, owner in comb_deep if owner is f]
+        ctx.ob("C04.syn.multi-shape", f.key, "flatten + combine", len(fl) == 1 and len(comb_deep) == 1, "%d flatten, %d combine" % (len(fl), len(comb_deep)))
+        for blk, t in fl + [(blk, t) for blk, t, _ in comb_deep]:
             ctx.requires("C04.syn.multi-flattens", f, blk, "flatten/combine", [r"Eq\(darling_core::error::Error::len\(a1\), 1_usize\)=False"])
+        for blk, t, owner in comb_deep:
+            if owner is f:
+                continue
+            # the same accumulation written as `iter.fold(first, |mut acc, next| { acc.combine(next); acc })`
+            folds = [(b2, t2) for b2, t2 in ctx.find_calls(f, r"Iterator(>)?::fold$") if owner.key in ctx.expr(f, t2["args"][2])]
+            args = [ctx.expr(owner, a) for a in t["args"]]
+            crets = ctx.ret_values(owner)
+            ok = len(folds) == 1 and args == ["a2", "a3"] and crets == ["a2"]
+            ctx.ob("C04.syn.combine-each-leaf", f.key, "fold(first, |acc, next| acc.combine(next))", ok, "fold calls %d, combine%s, closure returns %s" % (len(folds), args, crets))
+            if folds:
+                it = ctx.expr(f, folds[0][1]["args"][0])
+                ctx.ob("C04.syn.combine-in-loop", f.key, "combine repeated for every remaining leaf", "Iterator>::map(" in it and "flatten(a1)" in it, "fold over %s" % it[:160])
         if comb:
             blk, t = comb[0]
             a1 = ctx.expr(f, t["args"][1])
